@@ -1,6 +1,7 @@
 //! pvc-ckks: checks C16.  usage: pvc-ckks <Cxx> --tier quick|thorough [--replay f] [--only family]
 
 pub mod c16;
+pub mod ctx;
 
 use pvc_engine::{Run, load_replay, parse_args};
 
